@@ -36,7 +36,10 @@ def mk(rng, fmt, n=None):
 
 
 def snap(r):
-    return (bytes(r.data), r.sampling_rate, r.sample_width, r.channels, r.start)
+    # everything a user can read off a region: the audio, its parameters, where it starts and ends, the (deprecated but public) meta
+    m = getattr(r, "meta", None)
+    return (bytes(r.data), r.sampling_rate, r.sample_width, r.channels, r.start, getattr(r, "end", None),
+            tuple(sorted(dict.items(m))) if isinstance(m, dict) else None)
 
 
 def fmt_of(r):
@@ -471,10 +474,76 @@ def op_tree(ctx, rng):
 OPS = [op_add, op_sum, op_mul, op_join, op_div, op_mismatch, op_eq, op_silence, op_construct, op_frozen, op_tree, op_tree]
 
 
+_CHILD = """
+import pickle, random, sys
+from auditok import AudioRegion
+rng = random.Random(int(sys.argv[1]))
+out = []
+for _ in range(40):
+    fmt = (rng.choice((8, 10, 100, 16000)), rng.choice((1, 2, 4)), rng.choice((1, 2, 3)))
+    r = AudioRegion(rng.randbytes(rng.randint(0, 20) * fmt[1] * fmt[2]), *fmt)
+    try:
+        hash(r), {r: 1}, {r}
+    except TypeError:
+        pass
+    out.append(r)
+sys.stdout.buffer.write(pickle.dumps(out))
+"""
+
+
+def op_eq_across_processes(ctx):
+    """regions that were hashed (used in a set / as a dict key) in another interpreter, with another string-hash seed, and came
+    over as a pickle: equal to a local region iff bytes and parameters agree"""
+    import os
+    import pickle
+    import random
+    import subprocess
+    import sys
+
+    seed = ctx.rng("xproc").getrandbits(30)
+    env = dict(os.environ, PYTHONHASHSEED=str(1 + seed % 4000000))
+    try:
+        r = subprocess.run([sys.executable, "-c", _CHILD, str(seed)], env=env, capture_output=True, timeout=120)
+        theirs = pickle.loads(r.stdout) if r.returncode == 0 else None
+    except Exception:
+        theirs = None
+    if not theirs:
+        ctx.count("regions_could_not_be_sent_over_as_pickles")  # no statement says that regions can be pickled
+        return
+    rng = random.Random(seed)
+    for k, t in enumerate(theirs):
+        fmt = (rng.choice((8, 10, 100, 16000)), rng.choice((1, 2, 4)), rng.choice((1, 2, 3)))
+        data = rng.randbytes(rng.randint(0, 20) * fmt[1] * fmt[2])
+        mine = AudioRegion(data, *fmt)
+        try:
+            hash(mine), {mine}
+            hash(t)
+        except TypeError:
+            pass
+        ctx.count("regions_compared_with_regions_hashed_in_another_process")
+        ctx.case(("eq-xproc", seed, k), bool(data))
+        case = {"op": "eq-across-processes", "child_seed": seed, "index": k, "fmt": list(fmt), "data": data.hex()}
+        if bytes(t) != data or fmt_of(t) != fmt:
+            ctx.violation("pickled-region-differs-from-the-region-that-was-pickled", {"case": case})
+            return
+        if (t == mine) is not True or (mine == t) is not True or (t != mine) is not False:
+            ctx.violation("eq-false-for-equal-regions", {"case": case, "detail": "one of the two was hashed in another process (other hash seed) and unpickled here"})
+            return
+        if data:
+            d = bytearray(data)
+            d[0] ^= 1
+            if (t == AudioRegion(bytes(d), *fmt)) is not False:
+                ctx.violation("eq-true-for-different-bytes", {"case": case})
+                return
+
+
 def run_shard(ctx, upto=None):
     conf = TIERS[ctx.tier]
     if upto is None and ctx.shard == 0:
         op_optimised_interpreter(ctx)
+    if upto is None and (ctx.shard % 4 == 2):
+        ctx.replay_info = None
+        op_eq_across_processes(ctx)
     if upto is None and ctx.shard == ctx.nshards - 1 and not ctx.replay:
         # the repository's own 579 tests as one more workload, with the passive region-algebra monitor riding on every call they make
         from .. import repotests
@@ -511,6 +580,9 @@ def replay(ctx, case):
 
 
 def inconclusive(merged, tier):
+    _xp = merged["counters"]
+    if not (_xp.get("regions_compared_with_regions_hashed_in_another_process") or _xp.get("regions_could_not_be_sent_over_as_pickles")):
+        return ["monitor never observed regions_compared_with_regions_hashed_in_another_process"]
     c = merged["counters"]
     need = ["op_add", "op_sum", "op_mul", "op_join", "op_join_many", "op_join_temporaries", "op_div_into_hundreds_of_pieces", "op_div", "op_div_n_greater_than_len", "op_mismatch", "parameter_errors_observed",
             "op_eq", "op_make_silence", "op_construct_partial", "op_assignment", "op_tree", "optimised_interpreter_runs", "checksum_colliding_pairs_compared", "op_div_repeated_after_caller_mutated_result", "repo_tests_region_equalities_checked"]
